@@ -22,8 +22,14 @@ LEVEL_TEXT = ("Theorems (Coq, every n >= 1, every interval, every real z_i, pp_i
               "what the Newton stage computes is a theorem for every n: the inner loop yields (P_n(z), P_(n-1)(z)) of Bonnet's recurrence (C12_legendre_loop), the source's pp is the derivative P_n'(z) "
               "(C12_pp_is_derivative, proved from the recurrence by induction with Coquelicot's is_derive), so each pass is a genuine Newton step, and every delivered pair is (N(z1), P_n'(z1)) for a Newton iterate z1 "
               "of the Chebyshev-like guess with |N(z1) - z1| <= 1e-14, hence |P_n(z1)| <= 1e-14 |P_n'(z1)| (C12_newton_stage, C12_newton_residual; induction over the fuel; premise: no iterate is exactly +-1). "
+              "Seventh pass: the mirrored assignment is a theorem for every number type without laws, hence for doubles verbatim (C12_mirror_every_number_type: n two-entry rows, rows i and n-1-i carry the same weight, "
+              "row i = (xm - hw z_i, w_i), row n-1-i = (xm + hw z_i, w_i) in the source's operation order, the middle row of an odd order ends as the '+' row); why half the roots suffice: P_n(-z) = (-1)^n P_n(z), "
+              "P_n'(-z) = -(-1)^n P_n'(z), the weight expression is even and Newton's map commutes with the reflection (C12_legendre_parity), the end points are never roots (C12_legendre_endpoints) and the middle root of an odd order is exactly 0 (C12_odd_middle_root); "
+              "the odd half of 'exact up to degree 2n-1' is a theorem for every n, every interval and whatever the Newton stage delivers (odd n: middle node at the midpoint): every integrable function odd about the midpoint is integrated exactly and the rule sees only the even part of its integrand "
+              "(C12_odd_part_exact, C12_even_part_only). T-tie: every formula of Compute_Gauss_Legendre_Roots_and_Weights (eps, m, x_middle, x_half_width, the guess, the recurrence step, pp, the Newton update, the stop test, the four stores, the mirrored index) is regenerated from clang's AST on every run and "
+              "proved to be the model's term for every number type (C12_generated_*_is_model); the statement skeleton around them (loop bounds, order, targets of the stores, place of the break) is compared by the generator. "
               "NOT theorems: that the Newton iteration from the Chebyshev-like guess converges, for every n, to the distinct roots of P_n in decreasing order (i.e. that its results satisfy roots_ok/pp_ok; shown in Coq for n = 1 only), "
-              "and that the reference rule is exact to degree 2n-1 (the classical Gauss theorem applied to the computed doubles). These clauses are decided on the "
+              "and that the reference rule is exact on the even centred moments up to degree 2n-2 (the classical Gauss theorem applied to the computed doubles). These clauses are decided on the "
               "implementation by exhaustive enumeration of n (thorough: every n = 1..512 and a sample up to 4000; quick: every n = 1..64 and a sample up to 512) "
               "on intervals including reversed, far from the origin, of every magnitude (ladder 1e-305 .. 1e300, subnormal lengths, end points up to DBL_MAX) and, through the integration overloads, with end points 1 .. 1e6 ulps apart: ordering, interior, symmetry, sign and sum of the weights, and exactness on "
               "every monomial and Legendre-basis polynomial of degree <= min(2n-1, 60) with the verified moment checker run in exact integer arithmetic on the "
@@ -44,11 +50,12 @@ LEVEL_TEXT = ("Theorems (Coq, every n >= 1, every interval, every real z_i, pp_i
               "size-guard probes after all of these, nested integrations whose innermost integrand throws on a half-line / band / alternating / quadrant pattern of its domain with handlers at any levels, each asked through "
               "every overload at the top and through (values,rule) at every level (nestx: four answers that must coincide bit for bit) and, in sessions, again through other mixes of the overloads); every answer is compared with the stateless model and checked against the clauses of its own request.")
 LEVEL_NOTE = ("Coq 8.16.1 kernel; theorems over R (standard-library real axioms, Coquelicot for RInt and is_derive, Interval only for the n = 1 non-vacuity examples: |cos(M_PI/2)| <= 1e-14 for the decimal M_PI); hand-written model tied by differential correspondence "
-              "(bit-identical expected); the Newton loop of the source has no iteration cap: the model gives it fuel 100 and reports FUEL; "
+              "(bit-identical expected) and, for Compute_Gauss_Legendre_Roots_and_Weights, by the T-tie (tools/cxx2gallina_C12.py regenerates coq/Gen_C12_Formulas.v before the proofs are rebuilt; the (values,rule) overload is not translated: member calls); coverage table: coverage/C12.md; the Newton loop of the source has no iteration cap: the model gives it fuel 100 and reports FUEL; "
               "the function overload reads row[0] before the row-size guard of the value overload: an empty row is an out-of-bounds read (model outcome OOB, not generated); "
               "std::cos / M_PI modelled by OCaml's cos (glibc) and the literal 0x1.921fb54442d18p+1")
 TOL = (1e-13, 0.0)
 TRUSTED = ["std::cos is glibc's cos on both sides; M_PI is the literal 3.14159265358979323846",
+           "tools/cxx2gallina_C12.py (expression rules of tools/cxx2gallina.py, statement skeleton compared as text) and clang 14's JSON AST",
            "S4 slack for nested polynomial integrals (a priori, _nest_reference): per level the moment bound of DERIVATION in the variable the polynomial is written in, combined as prod(B_j(1+r_j)) - prod(B_j), plus one rounding per operation of the core",
            "S4 slack for 'exact to rounding' (a priori, see checks/C12.py: W(n) = (8 ln n + 8)*1e-14 + 32 n 2^-53 relative to |b-a| max|g|, plus node-position terms, plus (n+2) subnormal quanta where results are subnormal)"]
 ASSUMPTIONS = ["rule requests are generated with |b-a| >= 1e-4*max(|a|,|b|) (kind ulp-ladder: |b-a| = 2 .. 1e4 ulps of max(|a|,|b|) with orders n such that (|b-a|/2) min(1-cos(pi/(2n+1)), 2 sin(pi/(n+1/2)) sin(pi/(4n+2))) >= 2 ulps, n = 1 from 2 ulps on; kind far-narrow and adjacent panels in sessions: >= 1e-12 n^2 max(|a|,|b|), n <= 1000) (and >= 2e6 subnormal quanta, n <= 64 there) so that the n nodes are distinct doubles (node spacing ~ 6|b-a|/n^2, first node 1.45|b-a|/n^2 inside, against an ulp of max(|a|,|b|)); "
@@ -57,6 +64,16 @@ ASSUMPTIONS = ["rule requests are generated with |b-a| >= 1e-4*max(|a|,|b|) (kin
                "convergence of the Newton iteration to distinct roots and positivity of the weights are not theorems; they are enumerated on the implementation (S4)",
                "nested integrations and sessions use limits of moderate magnitude (2^-100 .. 2^100), orders whose product stays below 1200 (quick) / 4000 (thorough) evaluations of the innermost integrand, and depth <= 6; "
                "an integrand abandons a request by throwing an exception of the harness (one exception type; handlers substitute a constant and do not retry); Integrate(..., \"Gauss-Legendre_2\") and Integrate_2D/3D are other entry points (not driven here)"]
+
+def regenerate():
+    """T-tie: the formula sites of Compute_Gauss_Legendre_Roots_and_Weights from clang's AST of the current source"""
+    import os, vbuild, cxx2gallina, cxx2gallina_C12
+    try:
+        ch = cxx2gallina_C12.regenerate_c12(vbuild.REPO, os.path.join(vbuild.VERIF, "coq"))
+    except cxx2gallina.Unsupported as e:
+        raise RuntimeError(f"tools/cxx2gallina_C12.py cannot translate Compute_Gauss_Legendre_Roots_and_Weights of src/Integration.cpp: {e}")
+    return "Gen_C12_Formulas.v regenerated from the current source" if ch else ""
+
 
 EPS = 2.0 ** -53
 NEWTON = 1e-14   # the source's eps: a-priori bound on the last Newton step
